@@ -941,6 +941,17 @@ func (g *FnGen) lockCheck(p *PtrDesc, st *State, reach, mode string, pos token.P
 	if g.isFreshBase(p) {
 		return
 	}
+	if g.w.immutableFields[p.key] {
+		// written only while the object is being constructed (checked here: any other store must be unreachable),
+		// so reads need no lock: the object is published under the write lock
+		if mode == "read" {
+			return
+		}
+		kind := fmt.Sprintf("lock.immutable(%s)", field)
+		k := g.ordinal(kind)
+		g.oblige(kind, fmt.Sprint(k), []string{"C06"}, reach, "false", "store to a field that is read without the lock must be unreachable after construction", pos)
+		return
+	}
 	kind := fmt.Sprintf("lock.%s(%s)", mode, field)
 	k := g.ordinal(kind)
 	g.oblige(kind, fmt.Sprint(k), []string{"C06"}, reach, g.heldTerm(st, p.base, isTree, mode), "", pos)
